@@ -309,7 +309,7 @@ fn main() {
         }
     }
     let rep = Reporter::new("C03", "model_checking", &args);
-    let shard_counts: Vec<usize> = if args.tier == Tier::Thorough { vec![2, 3, 4, 16] } else { vec![2, 16] };
+    let shard_counts: Vec<usize> = if args.tier == Tier::Thorough { vec![2, 3, 4, 5, 16] } else { vec![2, 3, 16] };
     let depth = if args.tier == Tier::Thorough { 5 } else { 4 };
     let alpha = alphabet(args.tier);
     let budget = Duration::from_secs(if args.tier == Tier::Thorough { 600 } else { 25 });
